@@ -23,6 +23,16 @@ type c13Case struct {
 	MaxLen  int     `json:"max_len"`
 }
 
+type c13LongCase struct {
+	Pre string  `json:"pre"`
+	U   string  `json:"u"`
+	K   int     `json:"k"`
+	V   string  `json:"v"`
+	Str *string `json:"str,omitempty"`
+}
+
+func (c *c13LongCase) Weight() int { return c.K * len(c.U) }
+
 func (c *c13Case) Weight() int {
 	w := len(c.Pattern)
 	if c.Str != nil {
@@ -181,10 +191,134 @@ func C13() *engine.Check {
 			}
 		},
 	}
+	long := &engine.Sub{
+		Name:   "long-patterns-and-strings",
+		Repeat: true,
+		Rule:   "patterns prefix + '*' + u^k + v (u in {a, ab, abc, 0}, k in {8, 16, 17, 20, 33, 40}, v in {'', b, 7}, prefix in {'', x}) - a wildcard followed by a long, self-overlapping literal - against strings u^m + v for m around k, 2k and 25k, with and without a near-miss run before the real match, and against the same strings with the last character changed; reference = dynamic programming; constructor-built and FromIPLD-built policies; non-trivial = all",
+		Bound: func(string) string {
+			return "2 x 4 x 6 x 3 patterns x 14 strings of up to ~3000 bytes x 2 constructors"
+		},
+		Gen: func(tier string, emit func(any) bool) {
+			for _, pre := range []string{"", "x"} {
+				for _, u := range []string{"a", "ab", "abc", "0"} {
+					for _, k := range []int{8, 16, 17, 20, 33, 40} {
+						for _, v := range []string{"", "b", "7"} {
+							if !emit(&c13LongCase{Pre: pre, U: u, K: k, V: v}) {
+								return
+							}
+						}
+					}
+				}
+			}
+		},
+		NewCase: func() any { return &c13LongCase{} },
+		Run: func(ctx *engine.Ctx, c any) {
+			cs := c.(*c13LongCase)
+			pat := cs.Pre + "*" + strings.Repeat(cs.U, cs.K) + cs.V
+			toks, ok := refmodel.GlobParse(pat)
+			if !ok {
+				panic("harness: bad long pattern " + pat)
+			}
+			pol, err := policy.Construct(policy.Like(".", pat))
+			pol2, err2 := policy.FromIPLD(likeNode(".", pat))
+			ctx.States(1)
+			ctx.Nontrivial(1)
+			if err != nil || err2 != nil {
+				ctx.Failf(cs, "glob/constructor-acceptance", "valid pattern %.40q... rejected: %v / %v", pat, err, err2)
+				return
+			}
+			rep := strings.Repeat
+			var strs []string
+			for _, m := range []int{cs.K - 1, cs.K, cs.K + 1, 2 * cs.K, 2*cs.K + 1, 25 * cs.K} {
+				body := rep(cs.U, m) + cs.V
+				strs = append(strs, cs.Pre+body, cs.Pre+"zz"+body, cs.Pre+rep(cs.U, cs.K-1)+"#"+body)
+			}
+			// overlapping occurrences: the literal occurs twice, shifted by one period, only the second leads to a match
+			strs = append(strs, cs.Pre+rep(cs.U, cs.K)+cs.U[:1]+"!"+rep(cs.U, cs.K)+cs.V, cs.Pre+cs.U[len(cs.U)-1:]+rep(cs.U, cs.K+1)+cs.V)
+			n := len(strs)
+			for i := 0; i < n; i++ {
+				s := strs[i]
+				strs = append(strs, s[:len(s)-1]+"?", s+"?")
+			}
+			for _, s := range strs {
+				ctx.Eval(2)
+				ctx.Trans(1)
+				node := literal.String(s)
+				got, _ := pol.Match(node)
+				got2, _ := pol2.Match(node)
+				want := refmodel.GlobMatch(toks, s)
+				ctx.Outcome(fmt.Sprint(got))
+				sc := s
+				rc := &c13LongCase{Pre: cs.Pre, U: cs.U, K: cs.K, V: cs.V, Str: &sc}
+				if cs.Str != nil && *cs.Str != s {
+					continue
+				}
+				if got != want || got2 != want {
+					side := "false-negative"
+					if want == false {
+						side = "false-positive"
+					}
+					ctx.Failf(rc, "glob/"+side+"/long-input", "like %.30q...(%d bytes) on %.30q...(%d bytes) = %v / %v, glob language says %v", pat, len(pat), s, len(s), got, got2, want)
+				}
+			}
+		},
+	}
+	many := &engine.Sub{
+		Name: "many-distinct-patterns-in-one-process",
+		Rule: "every pattern over {a,b,*} of length <= 10 (quick) / 12 (thorough) - tens of thousands of distinct like statements built in one process, enough to fill and collide in any table keyed by a hash of the statement - each built again after all others and matched against the string obtained by deleting its stars (must match) and that string with a '#' appended (must not match unless the pattern ends in a star); non-trivial = all",
+		Bound: func(t string) string {
+			return fmt.Sprintf("all %d-symbol-alphabet patterns of length <= %d, built twice", 3, tierN(t, 10, 12))
+		},
+		Gen: func(tier string, emit func(any) bool) {
+			// blocks of patterns sharing a 4-character prefix
+			allStrings([]string{"a", "b", "*"}, 4, func(p string) bool {
+				if len(p) < 4 {
+					return true
+				}
+				return emit(&c13Case{Pattern: p, MaxLen: tierN(tier, 10, 12)})
+			})
+		},
+		NewCase: func() any { return &c13Case{} },
+		Run: func(ctx *engine.Ctx, c any) {
+			cs := c.(*c13Case)
+			ctx.States(1)
+			var pats []string
+			if cs.Str != nil {
+				pats = []string{cs.Pattern}
+			} else {
+				allStrings([]string{"a", "b", "*"}, cs.MaxLen-4, func(suffix string) bool { pats = append(pats, cs.Pattern+suffix); return true })
+			}
+			for round := 0; round < 2; round++ {
+				for _, p := range pats {
+					pol, err := policy.Construct(policy.Like(".e", p))
+					ctx.Eval(1)
+					if err != nil {
+						ctx.Failf(&c13Case{Pattern: p, Str: new(string), MaxLen: cs.MaxLen}, "glob/constructor-acceptance", "valid pattern %q rejected: %v", p, err)
+						continue
+					}
+					plain := strings.ReplaceAll(p, "*", "")
+					for _, s := range []string{plain, plain + "#"} {
+						want := s == plain || strings.HasSuffix(p, "*")
+						got, _ := pol.Match(nMap(kv{"e", nStr(s)}))
+						ctx.Eval(1)
+						ctx.Trans(1)
+						if got != want {
+							ctx.Outcome("wrong")
+							sc := s
+							ctx.Failf(&c13Case{Pattern: p, Str: &sc, MaxLen: cs.MaxLen}, "glob/wrong-after-many-statements", "like %q on %q = %v (want %v) in a process that has built tens of thousands of other like statements", p, s, got, want)
+						} else {
+							ctx.Outcome("ok")
+						}
+					}
+				}
+			}
+			ctx.Nontrivial(int64(len(pats)))
+		},
+	}
 	return &engine.Check{
 		Property: "C13",
 		Level:    "model_checking",
-		Subs:     []*engine.Sub{main, nonString, c13ConcSub(), concRaceSub("C13")},
+		Subs:     []*engine.Sub{main, long, many, nonString, c13ConcSub(), concRaceSub("C13")},
 		Assumptions: []string{
 			`alphabet {a,b,*,\}: two ordinary characters plus the two special ones; bytes outside ASCII are not special to the matcher`,
 			"reference: dynamic programming over the tokenized pattern (refmodel.GlobMatch), independent of the backtracking matcher",
